@@ -1,6 +1,183 @@
-/-! line protocol for C02 (stub: no model yet) -/
+import ObiVerif.Model.Header
+import ObiVerif.Driver.Util
+/-! line protocol for C02 (see the header comment of `harness/c02.go` for the case-line grammar) -/
 namespace ObiVerif.Driver.C02
+open ObiVerif.Header ObiVerif.Driver
 
-def run (_line : String) : String := "bad-op"
+/-- digest of the empty annotation map (FNV-1a of the canonical dump `M{}` printed by the harness) -/
+def emptyDig : String := "3b71c82c"
+
+structure LibEnt where
+  s : Nat
+  e : Nat
+  val : Option (String × Option Bytes)
+
+def parseDefFlag (w : String) : Option (Option Bytes) :=
+  if w = "-" then some none
+  else if w.startsWith "d" then
+    let h := (w.drop 1).toString
+    if h = "" then some (some []) else (unhex h).map some
+  else none
+
+def parseLibEnt (w : String) : Option LibEnt :=
+  match w.splitOn ":" with
+  | [s, e, "x"] => do pure ⟨← s.toNat?, ← e.toNat?, none⟩
+  | [s, e, dig, d] => do pure ⟨← s.toNat?, ← e.toNat?, some (dig, ← parseDefFlag d)⟩
+  | _ => none
+
+def parseLib (w : String) : Option (List LibEnt) :=
+  if w = "-" then some [] else (w.splitOn ",").mapM parseLibEnt
+
+def libFind (es : List LibEnt) (s e : Nat) : Option LibEnt := es.find? (fun x => x.s == s && x.e == e)
+
+def mkLib (es : List LibEnt) : Lib String := fun s e =>
+  match libFind es s e with
+  | some x => x.val
+  | none => none
+
+/-- the model asks the library about exactly one span: it must be one the harness has asked go-json about -/
+def libCovers (es : List LibEnt) (h : Bytes) : Bool :=
+  match scanJson h with
+  | none => true
+  | some (s, e) => (libFind es s e).isSome
+
+def showDef : Option Bytes → String
+  | none => "-"
+  | some [] => "d"
+  | some b => "d" ++ hex b
+
+def hdrRun (es : List LibEnt) (h : Bytes) : String :=
+  if !libCovers es h then "bad-lib" else
+  match parseJsonHeader (mkLib es) h with
+  | .unparsed => "none"
+  | .fatal => "fatal"
+  | .ok a d rest => s!"ok {a} {showDef d} {hex rest}"
+
+def showErr : Err → String
+  | .fatal => "fatal"
+  | .panic => "panic"
+
+def showTitleRec (r : Rec) : String :=
+  s!"id={hex r.id} seq={hex r.seq} def={showDef (if r.defn = [] then none else some r.defn)}"
+
+def parseText (fm : String) (shift : UInt8) (text : Bytes) : Except Err (List Rec) :=
+  if fm = "fastq" then parseFastq shift true text else parseFasta text
+
+/-- both layers must agree on a text that holds exactly one record -/
+def layerCheck (fm : String) (shift : UInt8) (text : Bytes) (rs : List Rec) : String :=
+  match rs with
+  | [r] =>
+    let s := if fm = "fastq" then readFastqS shift text else readFastaS text
+    if s = some r then "" else " LAYER-MISMATCH"
+  | _ => ""
+
+/-- header parser selection: `j` = ParseFastSeqJsonHeader, `g` = ParseGuessedFastSeqHeader -/
+def headerParse (hp : String) (es : List LibEnt) (defn : Bytes) : Except String (Parsed String) :=
+  if hp = "g" ∧ defn.head? ≠ some 123 then
+    -- ParseFastSeqOBIHeader: only the empty definition is in the model
+    if defn = [] then .ok ⟨emptyDig, none⟩ else .error "obi-header"
+  else if !libCovers es defn then .error "bad-lib"
+  else match parseFastSeqJsonHeader emptyDig (mkLib es) defn with
+    | some p => .ok p
+    | none => .error "fatal"
+
+def showRec (r : Rec) (p : Parsed String) : String :=
+  let q := match r.qual with
+    | some q => if q = [] then "none" else hex q
+    | none => "none"
+  s!"id={hex r.id} seq={hex r.seq} q={q} ann={p.ann} def={showDef p.defn}"
+
+structure InRec where
+  id : Bytes
+  seq : Bytes
+  qual : Option Bytes
+
+def parseInRecs : Nat → List String → Option (List InRec × List String)
+  | 0, rest => some ([], rest)
+  | n + 1, id :: sq :: q :: _ann :: rest => do
+    let id ← unhex id
+    let sq ← unhex sq
+    let q ← if q = "-" then some none else (unhex q).map some
+    let (rs, rest) ← parseInRecs n rest
+    pure (⟨id, sq, q⟩ :: rs, rest)
+  | _, _ => none
+
+def parseAug : Nat → List String → Option (List (Bytes × List LibEnt))
+  | 0, [] => some []
+  | n + 1, info :: lib :: rest => do
+    let info ← unhex info
+    let lib ← parseLib lib
+    let t ← parseAug n rest
+    pure ((info, lib) :: t)
+  | _, _ => none
+
+def zipParse (hp : String) : List Rec → List (List LibEnt) → Except String (List String)
+  | [], _ => .ok []
+  | r :: rs, libs => do
+    let p ← headerParse hp (libs.headD []) r.defn
+    let t ← zipParse hp rs libs.tail
+    pure (showRec r p :: t)
+
+def rtRun (fm hp : String) (so si : UInt8) (recs : List InRec) (aug : List (Bytes × List LibEnt)) : String :=
+  let texts := (recs.zip aug).map (fun (r, a) =>
+    if fm = "fastq" then formatFastq so r.id a.1 r.seq r.qual else formatFasta r.id a.1 r.seq ++ [10])
+  let text := texts.flatten
+  let w := "w=" ++ hex text ++ " r="
+  match parseText fm si text with
+  | .error e => w ++ showErr e
+  | .ok rs =>
+    match zipParse hp rs (aug.map (·.2)) with
+    | .error e => w ++ e
+    | .ok parts => (w ++ toString rs.length ++ " " ++ " | ".intercalate parts).trimAsciiEnd.toString ++ layerCheck fm si text rs
+
+def byte? (w : String) : Option UInt8 := do
+  let n ← w.toNat?
+  if n < 256 then some (UInt8.ofNat n) else none
+
+def run (line : String) : String :=
+  let (main, aug) := match line.splitOn " + " with
+    | [m, a] => (words m, words a)
+    | _ => (words line, [])
+  match main with
+  | ["hdr", _] | ["hdrj", _, _] =>
+    let hl : Option (Bytes × List LibEnt) := match main, aug with
+      | ["hdr", h], [lib] => do pure (← unhex h, ← parseLib lib)
+      | ["hdrj", _, _], [h, lib] => do pure (← unhex h, ← parseLib lib)
+      | _, _ => none
+    match hl with
+    | some (h, es) => hdrRun es h
+    | none => "bad-op"
+  | ["title", fm, t] =>
+    if fm ≠ "fasta" ∧ fm ≠ "fastq" then "bad-op" else
+    match unhex t with
+    | some t =>
+      let text : Bytes := if fm = "fastq" then 64 :: t ++ [10, 97, 99, 103, 116, 10, 43, 10, 73, 73, 73, 73, 10]
+                          else 62 :: t ++ [10, 97, 99, 103, 116]
+      match parseText fm 33 text with
+      | .error e => showErr e
+      | .ok rs => (toString rs.length ++ " " ++ " | ".intercalate (rs.map showTitleRec)).trimAsciiEnd.toString
+                    ++ (if fm = "fasta" then layerCheck fm 33 text rs else "")
+    | none => "bad-op"
+  | ["q", so, si, q] =>
+    match byte? so, byte? si, byte? q with
+    | some so, some si, some q =>
+      let text := formatFastq so [120] [] [97] (some [q])
+      match parseFastq si true text with
+      | .error e => showErr e
+      | .ok [r] =>
+        match r.qual with
+        | some [v] => if v = readQ si (writeQ so q) then toString v.toNat else "LAYER-MISMATCH"
+        | _ => "none"
+      | .ok rs => s!"nrec={rs.length}"
+    | _, _, _ => "bad-op"
+  | "rt" :: fm :: hp :: so :: si :: n :: rest =>
+    if (fm ≠ "fasta" ∧ fm ≠ "fastq") ∨ (hp ≠ "j" ∧ hp ≠ "g") then "bad-op" else
+    match byte? so, byte? si, n.toNat? with
+    | some so, some si, some n =>
+      match parseInRecs n rest, parseAug n aug with
+      | some (recs, []), some aug => rtRun fm hp so si recs aug
+      | _, _ => "bad-op"
+    | _, _, _ => "bad-op"
+  | _ => "bad-op"
 
 end ObiVerif.Driver.C02
